@@ -289,6 +289,40 @@ def run(ctx):
                             "task calls op(%s)" % ", ".join(want), "task calls op(%s), expected op(%s)" % (", ".join(a), ", ".join(want)))
             elif first:
                 R.incomplete("R-C17-6", "%s task-body" % tag, f.loc(lam), "expected exactly one call of the operator in the task")
+    # ---- R-C17-9 the shared queue only grows at its tail and shrinks at its head: the operations ever applied to queue_t::m_tasks are
+    # emplace_back / push_back (publish), front + pop_front (the worker takes the oldest task) and the read-only empty / size. Anything that
+    # replaces or removes other entries (swap, clear, erase, assignment, resize, pop_back, ...) drops tasks other callers have queued: those are
+    # never invoked and their futures break.
+    ALLOWED_Q = {"emplace_back", "push_back", "front", "pop_front", "empty", "size"}
+    nq = 0
+    for f in fns:
+        for x in f.nodes():
+            if x["k"] == "mem" and x.get("n") == "m_tasks":
+                par = f.parent_of(x)
+                while par is not None and par["k"] in ("cast", "paren"):
+                    par = f.parent_of(par)
+                how = None
+                if par is not None and par["k"] == "call" and par.get("ck") == "mem" and par.get("c") and any(z is x for z in walk(par["c"][0])):
+                    how = callee(par).split("::")[-1]
+                elif par is not None and assignment(par) and any(z is x for z in walk(assignment(par)[0])):
+                    how = "operator" + assignment(par)[2]
+                elif par is not None and par["k"] == "call":
+                    j = [i_ for i_, a_ in enumerate(args(par)) if any(z is x for z in walk(a_))]
+                    if j and par.get("pk", "")[j[0]:j[0] + 1] in ("r", "p"):
+                        how = "passed by reference to " + callee(par).split("::")[-1]
+                if how is None:
+                    continue
+                nq += 1
+                if how in ALLOWED_Q:
+                    continue
+                if how == "clear" and any(a_["k"] == "if" and skip(a_["c"][a_["r"].index("cond")])["k"] == "mem" and skip(a_["c"][a_["r"].index("cond")]).get("n") == "m_stop" and
+                                          any(z is x for z in walk(a_["c"][a_["r"].index("then")])) for a_ in f.ancestors(x)):
+                    continue        # shutdown: the pool is being destroyed, what is still queued is dropped on purpose
+                R.bad("R-C17-9", "%s m_tasks.%s@%d" % (f.name, how, x["l"]), f.loc(x),
+                      "`%s` on the shared task queue: it replaces / removes entries other callers may have queued - their operator invocations never happen (a caller "
+                      "waiting on them sees broken promises or returns with indices missing)" % (pp(par)[:60]))
+    R.floor("R-C17-9", nq, 4, "operations on queue_t::m_tasks")
+    R.ok("R-C17-9", "queue operations", "include/nano/core/parallel.h:1", "the shared queue is only appended to, popped at the head and tested for emptiness (%d operations)" % nq)
     # ---- R-C17-7 (caller side): worker ids 0..n-1 belong to the workers. The calling thread may invoke the operator itself (with id 0) only on
     # the branch that enqueues nothing; where tasks of the same call are (or may be) running, an inline invocation shares its id with a worker
     ninline = 0
